@@ -266,7 +266,9 @@ def explore(td, spec, acc, maxdepth=3):  # maxdepth: number of quit/resume cycle
     return fails
 
 
-SESSION_PAIRS = [('run2', 'run2a'), ('test', 'tests'), ('default_run', 'default_run.v'), ('job', 'job.sav')]
+SESSION_PAIRS = [('run2', 'run2a'), ('test', 'tests'), ('default_run', 'default_run.v'), ('job', 'job.sav'),
+                 # names that end in a letter of '.sav', next to what is left of them without it
+                 ('hashes', 'hashe'), ('alpha', 'alph'), ('dev', 'de'), ('x.', 'x')]
 
 
 def run_two_sessions(acc):
